@@ -26,6 +26,22 @@ class Ctx:
         except Exception:
             self.nctx.never_none = frozenset()
         self.nctx.rewrites = (self._enum_reduction, self._reduction_canon)
+        if not getattr(self.t, "case_values_done", False):
+            # inside `Case(K)` of `Switch(S)` (one integer pattern) S *is* K: a value written there in terms of S (`cycle.eq(cycle + 1)`
+            # in state k) is the same value in terms of K (`cycle.eq(k + 1)`)
+            self.t.case_values_done = True
+            for d_ in self.t.drivers:
+                for fr in d_.dsl:
+                    if fr[0] == 'case' and len(fr[2]) == 1:
+                        pat = fr[2][0]
+                        try:
+                            pn = ir.norm(pat, self.nctx)
+                            subj = ir.norm(self.t.switches[fr[1]], self.nctx)
+                        except Exception:
+                            continue
+                        if pn[0] == 'idx' or (pn[0] == 'const' and isinstance(pn[1], int) and not isinstance(pn[1], bool)):
+                            if subj[0] in ('sig', 'attr') and ir.contains(ir.norm(d_.value, self.nctx), lambda x: x == subj):
+                                d_.value = ir.subst(ir.norm(d_.value, self.nctx), lambda x: pn if x == subj else None)
         self.w = dl.Widths(idx, fi.cls, self.t, extra_bits)
         self.eng = dl.Engine(self.w, self.nctx)
         if not getattr(self.t, "wires_expanded", False):
@@ -1548,6 +1564,26 @@ def check_refusal(rep, rule, c, what, cond_texts, exc, env=None, loop_values=Non
                         if any(strip(names) >= strip(wn) and a != wt for wn, wt in wa) and not any(a == wt for _, wt in wa):
                             rep.unk(rule, c.fi.site, what, f"{detail}; but `raise {e}` at line {ln} tests `{a}`, other arithmetic over the same "
                                     "quantities, which may be the same condition: not decided")
+                            return False
+            else:
+                # the documented condition has no arithmetic (a membership / type test), but a refusal of the same exception type
+                # tests the same quantities *with* arithmetic (x & (x - 1), bit_length, //): it may be the same set of values
+                wnames = set()
+                for w in wants:
+                    for a in dl.f_atoms(w, set()):
+                        e_ = c.eng.atom_ir.get(a)
+                        if e_ is not None:
+                            wnames |= {x[1] if x[0] == 'name' else x[2] for x in ir.walk(e_)
+                                       if x[0] == 'name' or (x[0] == 'attr' and x[1] == ('name', 'self'))}
+                wnames -= {"isinstance", "int", "len"}
+                for conds, e, loops, ln, via in raise_sites(c):
+                    if exc is not None and e != exc:
+                        continue
+                    f = _formula(c, conds)
+                    for names, a, ops in _arith_atoms(c, f):
+                        if wnames and {n_.lstrip("_") for n_ in names} >= {n_.lstrip("_") for n_ in wnames}:
+                            rep.unk(rule, c.fi.site, what, f"{detail}; but `raise {e}` at line {ln} tests `{a}`, arithmetic over the same "
+                                    "quantities, which may describe the same set of values: not decided")
                             return False
         except Undecided:
             pass
